@@ -229,6 +229,9 @@ def dry_runs():
     yield 'E1_existing_region', dict(P='abcd', blen=1, W=3, lb=2)
 
 
+PROBES = ['expect_core']      # representation probes (harness/probes.py) this harness depends on
+
+
 MANIFEST_ENTRY = {
     'level_text': 'Bounded symbolic verification that the incremental search (fresh-length offset, look-back '
                   'trimming, window selection and rebuilding) of the real Expecter/searcher code equals the naive '
